@@ -244,6 +244,17 @@ func c03Recovery(c *Ctx) {
 		}
 	}
 
+	// the hash tree is rebuilt at open up to the *precommitted* frontier: the reloaded precommitted transactions get
+	// committed by the syncer, and a tree that stops at the committed frontier has no leaves for them
+	if f := c.mustFn(r, storeT+"syncBinaryLinking"); f != nil {
+		rd := sites(f, callTo(storeT+"newTxReader"))
+		c.check(len(rd) == 1 && len(sites(f, callTo(storeT+"NewTxReader"))) == 0, r, fnName(f)+":reader", c.pos(f.Pos()), "one internal tx reader", "syncBinaryLinking must read through newTxReader (the exported NewTxReader never returns precommitted transactions)")
+		for _, in := range rd {
+			a := callOf(in).Args
+			c.check(len(a) >= 4 && desc(a[3]) == "const:true", r, fnName(f)+":rebuild-includes-precommitted", c.pos(in.Pos()), "allowPrecommitted=true", "the hash-tree rebuild reads with allowPrecommitted="+desc(a[3])+": reloaded precommitted transactions get no leaf, later commits fail and their proofs do not exist")
+			c.check(len(a) >= 2 && strings.Contains(desc(a[1]), ").Size[") && strings.Contains(desc(a[1]), "+ const:1"), r, fnName(f)+":rebuild-starts-after-tree", c.pos(in.Pos()), "starts at aht.Size()+1", "the rebuild starts at "+desc(a[1]))
+		}
+	}
 	r = "C03.6/index-recovery"
 	if f := c.mustFn(r, "embedded/tbtree.OpenWith"); f != nil {
 		// the accepted commit entry: store of a non-constant committedLogSize guarded by a condition that
